@@ -1475,7 +1475,15 @@ func (ro *RedisOutput) bisyncStartPoint(ctx context.Context, runIDs []string) (S
 		frontier, err := checkpoint.RebuildBisyncFrontier(snapshot, records)
 		bisyncFrontierRebuildGauge.Set(time.Since(begin).Seconds(), ro.cfg.InputName)
 		if err != nil {
-			return sp, 0, false, err
+			if !errors.Is(err, checkpoint.ErrBisyncJournalGap) {
+				return sp, 0, false, err
+			}
+			// No usable snapshot and the journal does not start at 1 (a crash before the
+			// first flush with lanes finishing out of order): nothing contiguous has been
+			// committed after the root checkpoint, so restart from it instead of failing
+			// every start on a journal nothing would ever clean.
+			ro.logger.Warnf("bisync startpoint parallel journal gap, falling back to root: checkpoint(%s), err(%v)", checkpointName, err)
+			frontier = nil
 		}
 		// Every return of the root checkpoint below restarts the unit numbering at 1. The
 		// snapshot and journal of the previous numbering must not survive it: recovery would
